@@ -779,6 +779,7 @@ func ruleTransactionScope(r *Run, rule, key string, scope []string) {
 		return
 	}
 	info := fl.Info
+	paths = fl.OwnCode(paths) // the function's own statements, including a callback body a helper runs (withConn(func(conn){…}))
 	bad := ""
 	n := 0
 	for i := range paths {
@@ -856,7 +857,7 @@ func errorDiscipline(r *Run, rule string, fn *Func) {
 			n    int
 		}
 		sites := map[token.Pos]*site{}
-		paths = OwnOnly(paths) // every function of the scope is judged on its own call sites (its helpers are in the scope themselves)
+		paths = fl.OwnCode(paths) // every function of the scope is judged on its own call sites (its helpers are in the scope themselves)
 		for i := range paths {
 			p := &paths[i]
 			for ci, e := range p.Ev {
